@@ -1,6 +1,8 @@
 package props
 
 import (
+	"go/types"
+
 	"bbcheck/internal/an"
 )
 
@@ -28,9 +30,12 @@ func init() {
 			"captured cells shared with goroutines have a common lock (or are never written after sharing); guarded slices/maps/pointers are not returned without a copy; the Exclusive item-mutex hand-off is respected.",
 		NotDecided: "happens-before through user callbacks; the five reasoned exceptions (Worker.do, cleanup timer goroutine, Exclusive work read, Buffer.ensure double-checked header reads) are trusted with their stated reasons.",
 		Build: func(c *Ctx) []*an.Oblig {
-			return c.sel(func(o *an.Oblig) bool {
+			fieldClassCensus(c)
+			atomWitnesses(c)
+			out := c.sel(func(o *an.Oblig) bool {
 				return ruleIn(o, "G", "CLS", "ESC", "HO", "ANCHOR") || isUndecided(o)
 			})
+			return append(out, c.C.List...)
 		},
 		Floors: append(guardedFloors(),
 			floorRule("G obligations (half of the confirmed count)", "G", 60),
@@ -39,4 +44,61 @@ func init() {
 		),
 	})
 
+}
+
+// fieldClassCensus: every field of the concurrency-safe types has a class in the table (a new field
+// without a class is an analysis failure, not a silent pass), and every table row names a real field.
+func fieldClassCensus(c *Ctx) {
+	tracked := []string{"Buffer", "consumer", "Channel", "Exclusive", "exclusiveItem", "Workers", "Worker", "Notifier", "ChanCaster", "ChanPubSub"}
+	have := map[string]an.Class{}
+	for _, r := range E1Tables().Fields {
+		have[r.Type+"."+r.Field] = r.Class
+	}
+	n := 0
+	for _, tn := range tracked {
+		obj := c.P.Types.Scope().Lookup(tn)
+		if obj == nil {
+			c.C.Undecided("CLS", tn, "type exists", "tracked type "+tn+" not found")
+			continue
+		}
+		st, ok := obj.Type().Underlying().(*types.Struct)
+		if !ok {
+			c.C.Undecided("CLS", tn, "type is a struct", "tracked type "+tn+" is no longer a struct")
+			continue
+		}
+		for i := 0; i < st.NumFields(); i++ {
+			f := st.Field(i)
+			key := tn + "." + f.Name()
+			_, ok := have[key]
+			n++
+			if !ok {
+				c.C.Undecided("CLS", tn, "field "+f.Name()+" has a class", "field "+key+" has no class in the guarded-by table (GUARDED / INIT-ONCE / ATOMIC / SYNC / CONFIG): it is shared state the lockset rule would silently ignore")
+				continue
+			}
+			// sanity of the class against the type
+			ts := f.Type().String()
+			cls := have[key]
+			okc := true
+			if cls == an.ClsAtomic && !contains2(ts, "sync/atomic.") {
+				okc = false
+			}
+			if cls == an.ClsSync && !(contains2(ts, "sync.") || contains2(ts, "ChanCaster")) {
+				okc = false
+			}
+			if (contains2(ts, "sync/atomic.")) && cls != an.ClsAtomic {
+				okc = false
+			}
+			c.C.Add("CLS", tn, "field "+f.Name()+" has a class", okc, pickS(okc, "classified; class agrees with the field's type ("+ts+")", "the class recorded for "+key+" does not fit its type "+ts))
+		}
+	}
+	_ = n
+}
+
+func contains2(s, sub string) bool {
+	for i := 0; i+len(sub) <= len(s); i++ {
+		if s[i:i+len(sub)] == sub {
+			return true
+		}
+	}
+	return false
 }
